@@ -250,7 +250,22 @@ func reportBatchAnomalies(c *ev.Check) {
 		c.Violation("context-dependent-outcome", fmt.Sprintf("%s (flags %s)", a.What, a.Flags), map[string]any{"kind": "sequence", "flags": a.Flags.Args(0, "KEYFILE"), "input": a.Input})
 	}
 	c.Set("batches_whose_outcome_depended_on_context", len(batchAnomalies))
+	wholeMu.Lock()
+	defer wholeMu.Unlock()
+	for _, a := range contextDiffs {
+		c.Violation("context-dependent-output", fmt.Sprintf("%s (flags %s)", a.What, a.Flags), map[string]any{"kind": "sequence", "flags": a.Flags.Args(0, "KEYFILE"), "input": a.Input})
+	}
+	c.Set("whole_corpus_single_process_lines", wholeLines)
+	residueMu.Lock()
+	c.Set("placeholder_runs_in_a_directory_with_key_file_residue", residueRuns)
+	residueMu.Unlock()
+	c.Set("lines_whose_output_depended_on_context", contextDiffN)
 }
+
+var (
+	residueMu   sync.Mutex
+	residueRuns = map[string]int{}
+)
 
 func runBatch(s *sut.SUT, f Flags, variant int, lines [][]byte) ([]LineOut, bool) {
 	dir := s.TempDir("batch")
@@ -268,6 +283,24 @@ func runBatch(s *sut.SUT, f Flags, variant int, lines [][]byte) ([]LineOut, bool
 		os.WriteFile(key, []byte(TestKeyB64), 0o600)
 	}
 	fa := f.Args(variant, key)
+	if !f.Enc {
+		// residue of earlier work in the same directory: a key file at the default
+		// path (what a previous `--encrypt` job leaves behind), or one named with
+		// -q although this job does not encrypt. Neither may change a placeholder run.
+		switch variant % 4 {
+		case 1:
+			os.WriteFile(filepath.Join(dir, "anonymongo.enc.key"), []byte(TestKeyB64), 0o600)
+			residueMu.Lock()
+			residueRuns["default-key-file-present"]++
+			residueMu.Unlock()
+		case 3:
+			os.WriteFile(key, []byte(TestKeyB64), 0o600)
+			fa = append(fa, "-q", key)
+			residueMu.Lock()
+			residueRuns["-q-without---encrypt"]++
+			residueMu.Unlock()
+		}
+	}
 	useOut := f.Enc || variant%3 == 2
 	outp := filepath.Join(dir, "out.log")
 	if variant%2 == 0 {
